@@ -2,7 +2,7 @@
    set/get/shift_solution_values); proofs: PP.Proofs.C08. *)
 From Coq Require Import List ZArith Arith Lia.
 Import ListNotations.
-From PP Require Import Model.C08 Proofs.C08.
+From PP Require Import Model.C08 Proofs.C08 Proofs.C08_var.
 
 (* For every value type, every depth d >= 1 and EVERY history of overwrites / additive
    writes at index 0, reads at any index and shifts with maximum depth d, starting from
@@ -59,6 +59,63 @@ Theorem C08_set_is_map_update :
     end.
 Proof. exact set_is_map_update. Qed.
 Print Assumptions C08_set_is_map_update.
+
+(* DEPTH CHANGES.  For EVERY history of writes at index 0, reads anywhere and shifts whose
+   maximum depth is arbitrary and may change from call to call (any max_index >= 0,
+   including 0 and 1 which move nothing, or None which moves everything): the slot stays a
+   contiguous dictionary (keys 0..n-1, no holes), its contents are exactly the abstract
+   window [wrun] (shift = wshift: new[i] = old[i-1] for 1 <= i <= min(depth-1, n)), and
+   every call answers as that window says. *)
+Theorem C08_contiguous_any_depths :
+  forall (V : Type) (vadd : V -> V -> V) (ops : list (@op V)) (s0 : @st V),
+    Forall (disciplined_var V) ops -> (s0 = None \/ s0 = Some []) ->
+    (match fst (run vadd s0 ops) with
+     | None => wrun V vadd [] ops = []
+     | Some dct => (forall i, lookup dct i = nth_error (wrun V vadd [] ops) i) /\
+                   num_stored dct = length (wrun V vadd [] ops)
+     end) /\
+    snd (run vadd s0 ops) = wouts V vadd [] ops.
+Proof. exact contiguous_any_depths. Qed.
+Print Assumptions C08_contiguous_any_depths.
+
+(* ... and as long as every shift in the history uses a depth of at least d (a different
+   one each time, or None), every index below d holds the i-th most recent value written
+   at index 0 (the i-th entry of the history view of C08_window). *)
+Theorem C08_window_varying_depths :
+  forall (V : Type) (vadd : V -> V -> V) (d : nat) (ops : list (@op V)) (s0 : @st V),
+    1 <= d -> Forall (disciplined_var V) ops -> Forall (deep_enough V d) ops ->
+    (s0 = None \/ s0 = Some []) ->
+    forall i, i < d ->
+      match fst (run vadd s0 ops) with
+      | None => hrun V vadd [] ops = []
+      | Some dct => lookup dct i = nth_error (hrun V vadd [] ops) i
+      end.
+Proof. exact window_varying_depths. Qed.
+Print Assumptions C08_window_varying_depths.
+
+(* A shift of depth m leaves every index >= m as it was once the window holds m values:
+   the window is exactly as deep as the depth used, older entries are neither moved nor
+   dropped. *)
+Theorem C08_shift_leaves_deep_indices :
+  forall (V : Type) (w : list V) (m i : nat),
+    w <> [] -> m <= length w -> m <= i -> nth_error (wshift m w) i = nth_error w i.
+Proof. exact shift_leaves_deep_indices. Qed.
+Print Assumptions C08_shift_leaves_deep_indices.
+
+(* Non-vacuity for changing depths: depth 3, then None, then 2, then 0; indices 0 and 1
+   (below the smallest non-trivial depth, 2) hold the two most recent values, index 2
+   is stale after the depth-2 shift. *)
+Example C08_varying_nonvacuous :
+  let ops := [OpSet 0 [1]; OpShift (Some 3); OpSet 0 [2]; OpShift None; OpSet 0 [3];
+              OpShift (Some 2); OpSet 0 [4]; OpGet 2]%Z in
+  Forall (disciplined_var (list Z)) ops /\ Forall (deep_enough (list Z) 2) ops /\
+  wrun (list Z) vaddZ [] ops = [[4]; [3]; [1]]%Z /\
+  hrun (list Z) vaddZ [] ops = [[4]; [3]; [2]; [1]]%Z /\
+  snd (run vaddZ None ops) = [ODone; ODone; ODone; ODone; ODone; ODone; ODone; OVal [1]]%Z.
+Proof.
+  split; [|split; [|split; [|split]]]; try (vm_compute; reflexivity);
+    repeat constructor; cbn; try reflexivity; try lia.
+Qed.
 
 (* Non-vacuity: a concrete disciplined history with depth 2 and what the window holds. *)
 Example C08_nonvacuous :
